@@ -24,6 +24,10 @@ if hasattr(sys, "set_int_max_str_digits"):
     sys.set_int_max_str_digits(0)
 
 
+import os as _os
+TWIN = bool(_os.environ.get("SYMX_TWIN"))     # reachability-twin mode (vacuity self-test)
+
+
 class Infeasible(BaseException):
     """The current path condition is unsatisfiable (assumption failed)."""
 
@@ -841,6 +845,8 @@ class SymEngine:
 
     def check(self, name, formula):
         """the property clause `formula` must be valid under the path condition"""
+        if TWIN:            # reachability twin: every clause is replaced by `false`; the check must then report a violation
+            formula = False
         if not isinstance(formula, (SymBool, Formula)):
             if formula:
                 self.discharged += 1
@@ -1138,6 +1144,8 @@ class ConcreteEngine:
         return format(x, spec)
 
     def check(self, name, formula):
+        if TWIN:
+            formula = False
         if isinstance(formula, (SymBool, Formula)):
             raise EngineLimit("symbolic formula in concrete mode")
         if formula:
